@@ -137,7 +137,7 @@ func TestVF_Verify(t *testing.T) {
 				Plugins: []plugin.Plugin{&vfOptsPlugin{spec: vfList(ownSpec, "opts")}}}
 			own, _, err := cfg.RouterAdvertisement(true)
 			if err != nil {
-				panic(err)
+				panic("vf: " + err.Error())
 			}
 			var theirs *ndp.RouterAdvertisement
 			if vfBool(inp, "selfwire", false) {
@@ -149,7 +149,7 @@ func TestVF_Verify(t *testing.T) {
 				}
 			}
 			if err != nil {
-				panic(err)
+				panic("vf: " + err.Error())
 			}
 			res["own"], res["theirs"] = vfAbsRA(own), vfAbsRA(theirs)
 			var ps []any
@@ -175,7 +175,7 @@ func TestVF_Verify(t *testing.T) {
 			hooks := 0
 			ad.OnInconsistentRA = func(_, _ *ndp.RouterAdvertisement) { hooks++ }
 			if _, err := ad.handle(theirs, netip.MustParseAddr("fe80::99")); err != nil {
-				panic(err)
+				panic("vf: " + err.Error())
 			}
 			res["handled"] = true
 			if counted != nil {
